@@ -73,51 +73,6 @@ def gen_universe(rng, tables, soft_only):
     return uni, {"name": "g0:root", "v": 1}
 
 
-def step_traces(vh, wdir, tablesf, fam):
-    """Step-level trace validation: the resolver (hook maven.VerifStep, tag verif) reports every step of its main loop; TLC
-    consumes the events as actions of MavenResolve.tla (spec/MavenStepTrace.tla, deadlock checking on: a step the model cannot
-    take stops the run at that line).  Information, not a verdict: a rejection says the specification no longer describes the code."""
-    import concurrent.futures as cf
-    import re
-    casef, stepsf = os.path.join(wdir, "step_cases.ndjson"), os.path.join(wdir, "steps.ndjson")
-    vlib.write_ndjson(casef, [{"universe": c["universe"], "root": c["root"]} for c in fam])
-    vlib.run_harness(vh, ["maven", tablesf, casef, os.path.join(wdir, "step_obs.ndjson")], env={"VERIF_STEPS": stepsf}, timeout=3000)
-    lines = open(stepsf).readlines()
-    starts = [i for i, ln in enumerate(lines) if ln.startswith('{"ev":"start"')]
-    if len(starts) != len(fam):
-        raise vlib.Trouble("step recording: %d start events for %d resolutions" % (len(starts), len(fam)))
-    per = 1500                                           # resolutions per TLC run
-    chunks = []
-    for k in range(0, len(starts), per):
-        lo, hi = starts[k], (starts[k + per] if k + per < len(starts) else len(lines))
-        f = "%s.%03d" % (stepsf, k // per)
-        with open(f, "w") as g:
-            g.writelines(lines[lo:hi])
-        chunks.append((f, lo))
-
-    def one(f, lo):
-        r = vlib.tlc("MavenStepTrace", os.path.join(vlib.SPEC, "MavenStepTrace.cfg"), wdir, env={"VERIF_TRACE": f}, workers=1, timeout=2400, heap="4g", deadlock=True)
-        if r.ok:
-            return r.distinct, None
-        if "Deadlock reached" in r.out:
-            m = re.findall(r"/\\ l = (\d+)", r.out)
-            at = lo + int(m[-1]) if m else None
-            return r.distinct, {"line": at, "event": json.loads(lines[at - 1]) if at and at <= len(lines) else None}
-        raise vlib.Trouble("MavenStepTrace: violation=%s error=%s\n%s" % (r.violation, r.error, r.out[-2000:]))
-    states, rejected = 0, []
-    with cf.ThreadPoolExecutor(max_workers=6) as ex:
-        for fut in [ex.submit(one, f, lo) for f, lo in chunks]:
-            st, rej = fut.result()
-            states += st
-            if rej:
-                rejected.append(rej)
-    for f, _ in chunks:
-        os.remove(f)
-    if rejected:
-        print("NOTE: the resolver's step trace is not a behaviour of MavenResolve.tla at %s (not a verdict)" % json.dumps(rejected[0])[:300])
-    return {"resolutions": len(fam), "events": len(lines), "states": states, "accepted": not rejected, "rejected_at": rejected[:3]}
-
-
 def run(ctx):
     pid = "C07"
     t0 = time.time()
@@ -155,7 +110,7 @@ def run(ctx):
                      "DoneNearest holds on the algorithm model (the design-level form of C07-F25 is gone)"
     step_info = None
     if not ctx.replay:
-        step_info = step_traces(vh, wdir, tablesf, mcases if ctx.tier == "quick" else mcases[::8])
+        step_info = vlib.step_traces(vh, "maven", "MavenStepTrace", "MavenStepTrace.cfg", wdir, tablesf, mcases if ctx.tier == "quick" else mcases[::8], "Maven")
     casef = os.path.join(wdir, "cases.ndjson")
     obsf = os.path.join(wdir, "obs.ndjson")
     vlib.run_harness_split(vh, "maven", tablesf, cases, casef, obsf, nparts=1 if ctx.replay else 6)
